@@ -13,7 +13,9 @@ for d in $(ls -d /root/seeded_stash/$P-* /verif/seeded/$P-* 2>/dev/null | sort -
   git -C $W checkout -q --detach $(git -C /repo rev-parse HEAD); git -C $W checkout -q -- .
   if ! git -C $W apply --check $pf 2>/dev/null; then echo "$n head=$HEAD result=NOAPPLY" > build/seedresults/$n.txt; echo "$n NOAPPLY"; continue; fi
   git -C $W apply $pf
+  cp evidence/$P.json build/seedresults/.evidence_$P.bak 2>/dev/null   # the evidence file describes runs on /repo, not on seeded copies
   VERIF_REPO=$W VERIF_JOBS=6 ./check $P --tier quick > build/seedresults/$n.log 2>&1; rc=$?
+  cp build/seedresults/.evidence_$P.bak evidence/$P.json 2>/dev/null
   git -C $W checkout -q -- .
   nv=$(grep -c '^VIOLATION' build/seedresults/$n.log); ni=$(grep '^VIOLATION' build/seedresults/$n.log | grep -vc 'no-failing-input-found')
   what=$(grep -E '^\[.*->' build/seedresults/$n.log | head -1 | sed 's/^\[[^]]*\] *-> *//' | cut -c1-160)
